@@ -426,6 +426,12 @@ func (s *session) ciscoReply(line, output string) {
 		s.w("%s", line)
 		s.writeChunked(bt, b.Chunk)
 		s.w("\r\n%s%s", output, p)
+	case b.Form == "after-line-no-prompt":
+		// The banner comes behind the complete echo line and in front
+		// of output and prompt of the command.
+		s.w("%s\r\n", line)
+		s.writeChunked(bt, b.Chunk)
+		s.w("%s%s", output, p)
 	case b.Form == "after-own-prompt":
 		s.w("%s", line)
 		s.writeChunked(bt+"\r\n"+p, b.Chunk)
